@@ -1,11 +1,13 @@
 #!/bin/bash
-# usage: try_patch.sh <patch.diff> <PID> [PID...]  - apply to /repo, run quick checks, revert.
+# usage: try_patch.sh <patch.diff> <PID> [PID...]  - apply to the tree under test, run quick checks, revert.
+# The tree is /repo unless VERIF_REPO names a scratch copy (used while other runs read /repo).
 set -u
 P=$1; shift
-cd /repo && git apply "$P" || { echo "APPLY FAILED"; exit 9; }
+R=${VERIF_REPO:-/repo}
+cd "$R" && git apply "$P" || { echo "APPLY FAILED"; exit 9; }
 cd /verif
 for pid in "$@"; do
   python3-vt -m vf.run $pid --no-evidence ${VERIF_EXTRA:-} 2>&1 | grep -E "^(VIOLATION|KNOWN|HARNESS-ERROR|NON-REPRO|INCONCLUSIVE|C[0-9]+ tier)" | head -8
   echo "rc[$pid]=${PIPESTATUS[0]}"
 done
-git -C /repo checkout -- . 
+git -C "$R" checkout -- .
